@@ -42,7 +42,7 @@ var prop = hx.Prop[Case]{
 	Quick: 300, Thorough: 1000,
 	Gen: func(t *rapid.T) Case {
 		c := Case{Backend: rapid.SampledFrom([]string{"mem", "file"}).Draw(t, "backend")}
-		lims := []int{200, 256, 1000, 4096, 5000, 65536}
+		lims := []int{200, 256, 1000, 4096, 5000, 65536, 0, 10}
 		if hx.Tier() == "thorough" {
 			lims = append(lims, 300000, 1048576)
 		}
@@ -243,6 +243,36 @@ func run(c Case) *hx.Outcome {
 		steps = append([]string{"RSET"}, steps...)
 	}
 	o.Class("follow-up MAIL: " + c.Follow)
+	if c.Limit < len(small) {
+		// a limit so low (0, 10) that even the small message is over it: the follow-up is refused
+		// too - at MAIL when it declares its size, else after the final dot - and stores nothing
+		o.Class("limit below the follow-up message")
+		refused := false
+		for _, s := range steps {
+			r, err := cl.Cmd(s)
+			if err != nil {
+				o.Failf(pid+":session-unusable", "after the first transaction %q: %v", s, err)
+				return o
+			}
+			if r.Code == 552 && strings.HasPrefix(s, "MAIL") && strings.Contains(s, "SIZE=") {
+				refused = true
+				break
+			}
+			if r.Class() != 2 && r.Code != 354 {
+				o.Failf(pid+":session-unusable", "after the first transaction %q answered %v", s, r)
+				return o
+			}
+		}
+		if !refused {
+			if r, err := cl.Data(small); err != nil || r.Class() == 2 {
+				o.Failf(pid+":oversize-accepted", "limit %d: the %d-byte follow-up message was answered %v (err %v)", c.Limit, len(small), r, err)
+			}
+		}
+		if err := hx.CmpE2E(w.Store, model, []string{"big", "big2", "small", "nobody"}); err != nil && !o.Failed() {
+			o.Failf(pid+":oversize-stored", "limit %d: after the refused follow-up: %v", c.Limit, err)
+		}
+		return o
+	}
 	for _, s := range steps {
 		r, err := cl.Cmd(s)
 		if err != nil || (r.Class() != 2 && r.Code != 354) {
